@@ -16,7 +16,9 @@ RULE_DP = ("DataParser documents: for every parser state reached on the implemen
            "exploration of the real parser along the generated table) a probe with every tag of the row, an unknown name, "
            "other tags (quick: a sample, thorough: all), text, blanks, end tag; archived gama-g3 inputs whole and in two "
            "chunks; one mutation of those (rename / delete / duplicate an element, attribute, broken number, truncation); "
-           "distinct by SAX event text; non-trivial = at least 4 events")
+           "distinct by SAX event text; non-trivial = at least 4 events; every document is ALSO run through DP.crun (the model on the "
+           "real character data: text_buffer, number-format conditions computed): state / error kind after every event, acceptance "
+           "bit and line of the refusal must equal the implementation's (stream dp_values)")
 
 _spec = importlib.util.spec_from_file_location("c11_dataparser_gen", str(VERIF / "tools" / "gen" / "c11_dataparser.py"))
 _tr = importlib.util.module_from_spec(_spec)
